@@ -160,7 +160,7 @@ class FindFromFilter(Contract):
     a file object of the requested type and every extra (`not_now`) path is registered as a generic file / directory,
     all with the caller's `dist` flag; a fresh cached search stores its results and searched directories."""
     target = 'bfg9000/builtins/find.py::find_from_filter'
-    properties = ('C08', 'C18')
+    properties = ('C08', 'C18', 'C11')
 
     def cases(self):
         return ['cache-hit', 'cache-miss', 'uncached']
